@@ -85,6 +85,26 @@ example :
     (Gen.SoftwareRegs.uninstallMethod n "dns-client").map (·.portMap) = some [] ∧
     (Gen.SoftwareRegs.uninstallMethod n "dns-client").map (·.classMap) = some [] := by decide
 
+/-- **`C13_gen_install_method`: the WHOLE method.**  `SoftwareManager.install`, translated statement by statement (the "already
+installed" guard, the constructor, the eviction through the translated `uninstall`, list and route writes, `start()` / `install()`,
+the three table writes, the forced CLOSED of an application, in source order), IS `Node.installSvc` for a Service class and
+`Node.installApp` for an Application class — for every node state in which no object is both, every class and configuration. -/
+theorem C13_gen_install_method (n : Node) (c : Cls) (cfg : Bool) (l : List Nat) (hl : Health) (f : Int) (hk : OneKind n) :
+    Gen.SoftwareRegs.installMethodSvc n c cfg l hl f = n.installSvc c cfg l hl f ∧
+    Gen.SoftwareRegs.installMethodApp n c cfg l hl f = n.installApp c cfg l hl f := by
+  unfold Gen.SoftwareRegs.installMethodSvc Gen.SoftwareRegs.installMethodApp Node.installSvc Node.installApp Node.installRefused Node.evict
+  by_cases hg : (dhas c.cid n.classMap && !cfg) = true
+  · simp [hg]
+  · simp only [hg, if_false]
+    by_cases hsw : dhas c.name n.software = true
+    · simp only [hsw, if_true, C13_gen_uninstall_method n c.name hk]
+      cases hu : n.uninstall c.name with
+      | none => simp
+      | some n1 =>
+        obtain ⟨_, _, hnext, hpow⟩ := uninstall_heap n n1 c.name hu
+        simp [Node.registerSvc, Node.registerApp, Node.isOn, hnext, hpow, App.applyAll]
+    · simp [hsw, Node.registerSvc, Node.registerApp, Node.isOn, App.applyAll]
+
 /-! ### programs sharing a (port, protocol) key -/
 
 theorem dget_dset_self {κ ν} [DecidableEq κ] (k : κ) (v : ν) (l : List (κ × ν)) : dget k (dset k v l) = some v := by
